@@ -74,7 +74,7 @@ fn base<P: liquid::partials::PartialCompiler>(b: ParserBuilder<P>, c: Config) ->
     if c == Config::Empty {
         b
     } else {
-        b.filter(plug::VDump).filter(plug::Digest).tag(plug::EnvDumpTag)
+        b.filter(plug::VDump).filter(plug::Digest).tag(plug::EnvDumpTag).tag(plug::PartialProbeTag)
     }
 }
 
